@@ -174,8 +174,19 @@ def run_check(pid, tier, seed):
     # record / attribute cross-check
     rec_problems = check_records(prop, results)
 
-    summ = discharge(all_obs + lemma_obs)
+    for o in all_obs:
+        # an obligation that a recorded OPEN finding sets aside is known not to be provable: no second (escalated) solver round for it
+        if any(finding_matches(f, pid, o.func, o.kind, o.desc) for f in findings):
+            o.extra["no_escalate"] = True
+    summ = discharge(all_obs + lemma_obs, escalate=True)
     csumm = discharge(all_covers, use_cvc5=False, z3_timeout=3000)
+    tlog = os.environ.get("VERIF_TIMING_LOG")
+    if tlog:
+        # development aid: per-obligation verdict/back end/solver time, to find obligations that sit close to their budget
+        with open(tlog, "a") as f:
+            for o in all_obs + lemma_obs + all_covers:
+                f.write(json.dumps({"prop": pid, "id": o.id, "kind": o.kind, "expect": o.expect, "verdict": o.verdict, "backend": o.backend,
+                                    "t": round(o.time or 0.0, 3), "attempts": getattr(o, "attempts", None), "sha": getattr(o, "sha", None), "reason": (getattr(o, "reason", "") or "")[:120]}) + "\n")
     disagreements = []
     cvc5_decided = 0
     second_sampled = 0
@@ -406,6 +417,9 @@ def run_check(pid, tier, seed):
             "lemma_obligations": len(lemma_obs),
             "by_backend": by_backend,
             "solver_time_s": round(summ["solver_time"], 2),
+            "escalated_obligations": {"second_round": summ.get("escalated", 0),
+                                      "decided_there": sorted(o.id for o in obs if str(o.backend or "").endswith("-escalated")),
+                                      "note": "obligations the first portfolio round left open get one more round with 4x the time budget before they count as undecided"},
             "covers": {"total": len(all_covers), "sat": sum(1 for o in all_covers if o.verdict == "sat"),
                        "not_refuted_within_budget": sum(1 for o in all_covers if o.verdict not in ("sat", "unsat")),
                        "refuted": len(cover_refuted)},
